@@ -1063,8 +1063,18 @@ func init() {
 					return true
 				}
 				if be, ok := ast.Unparen(f.Cond).(*ast.BinaryExpr); ok {
-					if l := fi.isBuiltin(be.X, "len"); l != nil && types.TypeString(fi.Info.TypeOf(l.Args[0]), nil) == "[]*"+pathW+".ProviderSet" {
+					if l := fi.isBuiltin(fi.deref(be.X), "len"); l != nil && types.TypeString(fi.Info.TypeOf(l.Args[0]), nil) == "[]*"+pathW+".ProviderSet" {
 						loop = f
+					}
+				}
+				// however the loop condition is spelled: the loop that pushes the imports of a set onto a list of sets
+				if loop == nil {
+					for _, as := range callsIn(f.Body) {
+						if ap := fi.isBuiltin(as, "append"); ap != nil && ap.Ellipsis.IsValid() && len(ap.Args) == 2 {
+							if fl := fi.selField(ap.Args[1]); fl != nil && fl.Name() == "Imports" && types.TypeString(fi.Info.TypeOf(ap.Args[0]), nil) == "[]*"+pathW+".ProviderSet" {
+								loop = f
+							}
+						}
 					}
 				}
 				return true
@@ -1131,10 +1141,21 @@ func init() {
 								env := map[string]bool{"unnamed": !named, "samePath": sp, "sameName": sn}
 								rec := true
 								for _, g := range fi.GuardsWithin(as, loop.Body) {
-									if _, isIf := g.At.(*ast.IfStmt); !isIf || !fi.within(as, g.At.(*ast.IfStmt).Body) {
+									is, isIf := g.At.(*ast.IfStmt)
+									if !isIf {
 										continue
 									}
 									v, ok := eval(g.Expr, env)
+									if !ok && !fi.within(as, is.Body) {
+										// an earlier `if … {continue}`: the visited test is the one allowed condition that is not about the name
+										look := g.Expr
+										if d := fi.defOf(g.Expr); d != nil && d.idx == 1 {
+											look = d.rhs
+										}
+										if ix, isIx := ast.Unparen(look).(*ast.IndexExpr); isIx && strings.HasPrefix(types.TypeString(fi.Info.TypeOf(ix.X), nil), "map[*") {
+											continue
+										}
+									}
 									if !ok {
 										okC = false
 										got += " undecided:" + exprShort(g.Expr)
